@@ -37,7 +37,7 @@ SPEC = {
             ob('harness_malloc_oom', bounds='size 0..32, allocation failure symbolic'),
             ob('harness_strdup_oom', bounds='strings <= 3 bytes over the full byte range, allocation failure symbolic'),
             ob('harness_strndup_oom', bounds='strings <= 3 bytes over the full byte range, n any 64-bit value, allocation failure symbolic'),
-        ] + [ob('harness_calloc_oom_%s' % k, bounds='calloc(num, %s): num any 64-bit value (block <= 16 bytes when the product fits), allocation failure symbolic' % k, unwind=18, timeout=600) for k in ('0', '1', '2', '3', '8', 'big', 'max')] + [
+        ] + [ob('harness_calloc_oom_%s' % k, bounds='calloc(num, %s): num any 64-bit value (block <= 16 bytes when the product fits), allocation failure symbolic' % k, unwind=18, timeout=600) for k in ('0', '1', '2', '3', '8', 'big', 'max')] + [ob('harness_calloc_oom_%s' % k, bounds='calloc(num, %s): num any 64-bit value whose product with the element size, taken modulo 2^64, is <= 16 (overflowing products that wrap to a small number >= num included), allocation failure symbolic' % d, unwind=18, timeout=600) for k, d in (('q62', '2^62+1'), ('q60', '2^60+1'))] + [
         ],
     }, {
         'name': 'countdown', 'wrapper': 'w15c.cpp', 'harness': 'h15c.c',
